@@ -347,7 +347,15 @@ def harnesses(tier):
               (f"event-set-clear-wait{tag}", event([["set", "clear"], ["twait"], ["twait"]], cp))]
     H += [("cond-W1-two-rounds", condition([True], ["notify", "notify"], rounds=2)),
           ("cond-W2-notify-notify", condition([True, False], ["notify", "notify"])),
-          ("cond-W3-notify_all", condition([True, False, False], ["notify_all"]))]
+          ("cond-W3-notify_all", condition([True, False, False], ["notify_all"])),
+          # several time-outs landing inside one notify_all / notify
+          ("cond-W2-both-timed-notify_all", condition([True, True], ["notify_all"])),
+          ("cond-W2-both-timed-notify_all-Lock", condition([True, True], ["notify_all"], lock="Lock")),
+          ("cond-W2-both-timed-notify", condition([True, True], ["notify"]))]
+    if tier == "thorough":
+        H += [("cond-W3-all-timed-notify_all", condition([True, True, True], ["notify_all"])),
+              ("cond-W2-both-timed-notify_all-notify", condition([True, True], ["notify_all", "notify"])),
+              ("cond-W2-both-timed-notify_all/copies", condition([True, True], ["notify_all"], copies=True))]
     if tier == "thorough":
         H += [("cond-W3-notify-notify", condition([True, False, False], ["notify", "notify"])),
               ("cond-W3-notify-notify_all", condition([True, True, False], ["notify", "notify_all"])),
